@@ -47,7 +47,9 @@ class Prop:
                    "replay filter modelled by its set specification (C05 proves the ring refines it)",
                    "per-peer order of TUN writes is compared; the order between different peers' writes is not determined "
                    "(one receiver goroutine per peer) and any interleaving is accepted",
-                   "keypair ages moved with VerifShiftKeypairAges in steps of 100 s (far from the 180 s boundary)"]
+                   "keypair ages moved with VerifShiftKeypairAges in steps of 100 s (far from the 180 s boundary); one dedicated scenario "
+                   "crosses the boundary in real time (shift 179 s, accept, 2 s idle socket, refuse): the model takes the age at arrival time, "
+                   "margins of 1 s, scenario discarded if the machine is too loaded to keep them"]
     trusted_extra = ["harness/ref (own WireGuard implementation on x/crypto) builds the hostile traffic",
                      "DataPath/Pack.v + Base/Ints.v: primitive Uint63 literals carry packet bytes in generated case files only",
                      "DataPath/Table.v: duplicate prefixes resolved to the last assignment (C08's semantics) before the specification is evaluated"]
@@ -73,7 +75,7 @@ class Prop:
             args.append("-big")
         files, meta = self._run_go(args, self.dir)
         self.shards = meta["shards"]
-        self.extra_coverage = {"discarded_scenarios": meta.get("discarded", 0)}
+        self.extra_coverage = {"discarded_scenarios": meta.get("discarded", 0), "crashed_scenarios": meta.get("crashed", 0)}
         return files, meta["cases"]
 
     def _fails(self, shards, files, outputs):
@@ -102,6 +104,8 @@ class Prop:
         outs = vlib.run_case_files(files)
         self.last_rerun = meta["cases"]
         fs = self._fails(meta["shards"], files, outs)
+        # a re-run the harness discarded (did not settle, timing margins missed) is not a verdict
+        fs = [f for f in fs if not meta["cases"][f["case"]].get("discarded")]
         # hand the re-run's observations and failing positions back on the candidate objects, so that
         # signature() of a shrunk case looks at the shrunk case's own failing step
         if len(cases) == len(meta["cases"]):
@@ -113,6 +117,8 @@ class Prop:
         return fs
 
     def shrink_candidates(self, case):
+        if case.get("kind") == "crashed":
+            return
         evs = case["evs"]
         free = [i for i, e in enumerate(evs) if e["k"] != "hs"]
         # drop runs of non-handshake events (handshakes define the session serials)
@@ -141,17 +147,33 @@ class Prop:
                     yield c
 
     def signature(self, case, f):
+        if case.get("kind") == "crashed":
+            return "device-crashed"
         evs = case["evs"]
         pos = (case.get("_pos") or {}).get(str(f.get("kind")), f.get("pos", 0))
+        # an "idle" event is written as one age step per peer in the case file: map the step back to the event
+        k = 0
+        for i, e in enumerate(evs):
+            width = case["npeers"] if e["k"] == "idle" else 1
+            if pos < k + width:
+                pos = i
+                break
+            k += width
+        else:
+            pos = len(evs)
         if any(f1_hit(e) for e in evs):
             return "ipv6-payload-length-uint16-wrap"
         notes = set()
         if pos < len(evs):
             for d in evs[pos].get("dgs") or []:
                 notes.add((d.get("note") or ("raw" if d.get("raw") else "dg")).split("/")[-1])
+        if any("after-idle-across-expiry" in n for n in notes) and pos < len(evs) and evs[pos].get("writes"):
+            return "key-older-than-RejectAfterTime-accepted-after-idle"
         return "tun-write-differs-from-permitted:" + ",".join(sorted(notes))[:80]
 
     def nontrivial(self, c):
+        if c.get("kind") == "crashed":
+            return False
         writes = sum(len(e.get("writes") or []) for e in c["evs"])
         credited = 0
         for e in c["evs"]:
@@ -162,6 +184,8 @@ class Prop:
         return writes > 0 and ndg > writes and credited > 0
 
     def sample(self, c):
+        if c.get("kind") == "crashed":
+            return {"gen": c.get("gen"), "crash": (c.get("crash") or "")[-300:]}
         out = {"gen": c.get("gen"), "npeers": c["npeers"], "bind_batch": c.get("bind_batch"),
                "table": ["%d:%s/%d->%d" % (e["fam"], base64.b64decode(e["bits"]).hex(), e["len"], e["owner"]) for e in c["table"][:6]],
                "events": []}
@@ -170,7 +194,7 @@ class Prop:
                 out["events"].append({"dg": [(d.get("note") or "raw") + ":" + str(len(_plain(d))) for d in (e.get("dgs") or [])[:6]],
                                       "tun_writes": [len(base64.b64decode(w)) for w in e.get("writes") or []][:6], "rx": e.get("rx")})
             else:
-                out["events"].append({e["k"]: e.get("peer", 0), "secs": e.get("secs")})
+                out["events"].append({e["k"]: e.get("peer", 0), "secs": e.get("secs"), "ms": e.get("ms")})
         return out
 
 
@@ -186,6 +210,10 @@ def replay(path):
         case = case[0]
     fs = p.run_cases([case])
     c = p.last_rerun[0]
+    if c.get("kind") == "crashed":
+        print(json.dumps({"failures": fs, "crash": c.get("crash")}))
+        print("VIOLATION property=C02 replay=%s no-failing-input-found" % path)
+        return 1
     obs = [{"step": i, "tun_writes": [base64.b64decode(w).hex() if len(base64.b64decode(w)) <= 64 else len(base64.b64decode(w))
                                       for w in e.get("writes") or []], "rx": e.get("rx")}
            for i, e in enumerate(c["evs"]) if e["k"] == "dg"]
